@@ -585,6 +585,10 @@ func runProp(prop string) int {
 	assumed = append(assumed, ifaceAssumed...)
 	var dl []string
 	for d := range definesUsed {
+		if strings.HasPrefix(d, "validity assumed") {
+			dl = append(dl, d)
+			continue
+		}
 		dl = append(dl, "definitional ghost link (assumed at call sites, not proved in the body): "+d)
 	}
 	sort.Strings(dl)
